@@ -32,19 +32,28 @@ pub fn canonical_id(s: &str) -> Option<&'static str> {
     IDS.iter().copied().find(|i| i.eq_ignore_ascii_case(s))
 }
 
-/// Build configurations a property is decided in.
+/// Build configurations a property is decided in, with the tier each sub-run uses.
+///
+/// * `checked` (this orchestrating binary): always, at the requested tier.
+/// * `checked-pext`: C01 and C05 always (their quantifier names both back ends); every other
+///   position-level property in the thorough tier.
+/// * `unchecked` (no overflow checks, no debug assertions): every property, because
+///   `debug_assert!` with side effects and wrapping arithmetic only show there; at the requested
+///   tier for the properties whose statement names build profiles or that are pure data
+///   (C06 setters, C15 play, C17, C18, C19), at quick scale for the others.
 pub fn builds_for(id: &str, tier: Tier) -> Vec<&'static str> {
-    let mut v = vec!["checked"];
+    sub_runs(id, tier).into_iter().map(|(b, _)| b).collect()
+}
+
+pub fn sub_runs(id: &str, tier: Tier) -> Vec<(&'static str, Tier)> {
+    let mut v = vec![("checked", tier)];
     let pext_always = ["C01", "C05"];
-    let pext_thorough = ["C02", "C03", "C04", "C12", "C16", "C20"];
-    let unchecked_always = ["C19", "C15", "C06"];
-    let unchecked_thorough = ["C17", "C18"];
+    let pext_thorough = ["C02", "C03", "C04", "C06", "C07", "C09", "C10", "C12", "C13", "C14", "C15", "C16", "C20"];
     if pext_always.contains(&id) || (tier == Tier::Thorough && pext_thorough.contains(&id)) {
-        v.push("checked-pext");
+        v.push(("checked-pext", tier));
     }
-    if unchecked_always.contains(&id) || (tier == Tier::Thorough && unchecked_thorough.contains(&id)) {
-        v.push("unchecked");
-    }
+    let unchecked_full = ["C06", "C15", "C17", "C18", "C19"];
+    v.push(("unchecked", if unchecked_full.contains(&id) { tier } else { Tier::Quick }));
     v
 }
 
